@@ -151,13 +151,9 @@ func (api *API) mapDecodeBasedOnType(ctx context.Context, mapVal any, value refl
 		sliceValue := sliceFromArray(value)
 		sliceValueType := sliceValue.Type()
 		if sliceValueType.AssignableTo(bytesType) {
-			fieldValStr, ok := mapVal.(string)
-			if !ok {
-				return ierrors.Errorf("non string value in map when decoding an array of bytes, got %T instead", mapVal)
-			}
-			byteSlice, err := DecodeHex(fieldValStr)
+			byteSlice, err := mapDecodeBytes(mapVal, ts)
 			if err != nil {
-				return ierrors.Wrap(err, "failed to read byte slice from map")
+				return ierrors.Wrap(err, "failed to read byte array from map")
 			}
 			copy(sliceValue.Bytes(), byteSlice)
 			fillArrayFromSlice(value, sliceValue)
@@ -335,8 +331,12 @@ func (api *API) mapDecodeInterface(
 		return ierrors.Wrapf(ErrInterfaceUnderlyingTypeNotRegistered, "object code: %d, interface: %s", objectCode, valueType)
 	}
 
+	// the object was encoded with the type settings of its own type (see mapEncodeInterface),
+	// not with the ones of the interface typed field.
+	objectTypeSettings, _ := api.typeSettingsRegistry.GetByType(objectType)
+
 	objectValue := reflect.New(objectType).Elem()
-	if err := api.mapDecode(ctx, m, objectValue, ts, opts); err != nil {
+	if err := api.mapDecode(ctx, m, objectValue, objectTypeSettings, opts); err != nil {
 		return ierrors.WithStack(err)
 	}
 	value.Set(objectValue)
@@ -460,11 +460,7 @@ func (api *API) mapDecodeStructFields(
 func (api *API) mapDecodeSlice(ctx context.Context, mapVal any, value reflect.Value,
 	valueType reflect.Type, ts TypeSettings, opts *options) error {
 	if valueType.AssignableTo(bytesType) {
-		fieldValStr, ok := mapVal.(string)
-		if !ok {
-			return ierrors.Errorf("non string value in map when decoding a slice of bytes, got %T instead", mapVal)
-		}
-		byteSlice, err := DecodeHex(fieldValStr)
+		byteSlice, err := mapDecodeBytes(mapVal, ts)
 		if err != nil {
 			return ierrors.Wrap(err, "failed to read byte slice from map")
 		}
@@ -512,6 +508,31 @@ func (api *API) mapDecodeSlice(ctx context.Context, mapVal any, value reflect.Va
 	}
 
 	return nil
+}
+
+// mapDecodeBytes reads the bytes of a byte slice or byte array from the form mapEncodeSlice writes for the given
+// type settings: the object {"type": <object code>, <field key>: "0x..."} for a type with an object code
+// (the key is keyDefaultSliceArray if the settings name none), a bare hex string otherwise.
+func mapDecodeBytes(mapVal any, ts TypeSettings) ([]byte, error) {
+	if ts.ObjectType() != nil {
+		fieldKey := keyDefaultSliceArray
+		if ts.fieldKey != nil {
+			fieldKey = *ts.fieldKey
+		}
+
+		m, ok := mapVal.(map[string]any)
+		if !ok {
+			return nil, ierrors.Errorf("non map[string]any value in map when decoding bytes of a type with an object code, got %T instead", mapVal)
+		}
+		mapVal = m[fieldKey]
+	}
+
+	hexStr, ok := mapVal.(string)
+	if !ok {
+		return nil, ierrors.Errorf("non string value in map when decoding bytes, got %T instead", mapVal)
+	}
+
+	return DecodeHex(hexStr)
 }
 
 // mapDecodeArray decodes a json array into an array of non-byte elements.
